@@ -183,6 +183,57 @@ func c11Dial(c *Ctx) {
 				}
 			}
 		}
+		// deferred cleanups: a deferred closure that invokes a DialContext's done runs when the
+		// path returns, unless the variables it captured disarm it (tested nil, and nil at the return)
+		deferred := 0
+		deferFact := ""
+		if p.Ret != nil {
+			for _, in := range seq {
+				df, ok := in.(*ssa.Defer)
+				if !ok {
+					continue
+				}
+				mc, ok := df.Call.Value.(*ssa.MakeClosure)
+				if !ok {
+					continue
+				}
+				cl := mc.Fn.(*ssa.Function)
+				for _, cp := range c.pathsO("R-C11-1", cl, an.PathOpts{}) {
+					calls := callsOnPath(cp, func(cc *ssa.CallCommon) bool {
+						_, ok := fieldLoadCall(cc, PkgSystem, "DialContext", "done")
+						return ok
+					})
+					if len(calls) == 0 {
+						continue
+					}
+					feasible := true
+					for _, a := range cp.Atoms {
+						x, y, op, ok := effCmp(a)
+						if !ok || !exprIsNil(y) {
+							continue
+						}
+						u, isLoad := x.V.(*ssa.UnOp)
+						if !isLoad {
+							continue
+						}
+						for i, fv := range cl.FreeVars {
+							if u.X != ssa.Value(fv) || i >= len(mc.Bindings) {
+								continue
+							}
+							cur := p.Load(mc.Bindings[i], p.Ret)
+							// the closure path needs "captured != nil" while the variable is nil at the return
+							if op == token.NEQ && cur != nil && exprIsNil(cur) {
+								feasible = false
+							}
+						}
+					}
+					if feasible {
+						deferred += len(calls)
+						deferFact = fmt.Sprintf("; deferred %s also invokes done on this return", c.fname(cl))
+					}
+				}
+			}
+		}
 		doneNil := false // path established done == nil
 		doneErr := false // path has done() != nil
 		for _, a := range p.Atoms {
@@ -197,13 +248,13 @@ func c11Dial(c *Ctx) {
 				doneErr = true
 			}
 		}
-		okOnce := (nDone == 1 && !doneNil) || (nDone == 0 && doneNil)
+		okOnce := ((nDone == 1 && !doneNil) || (nDone == 0 && doneNil)) && deferred == 0
 		okErr := true
 		if doneErr {
 			okErr = p.Ret != nil && len(p.Results) == 1 && !exprIsNil(p.Results[0])
 		}
 		c.R.Check(okFresh && okOnce && sameCtx && before == 0 && okErr && p.Panic == nil, "R-C11-1", key, fn, c.pos(fnCall.Pos()),
-			fmt.Sprintf("dctx=%s done-calls=%d (before fn: %d, same context: %v, done==nil on path: %v, cleanup error returned: %v) path ends in %s", dctxArg, nDone, before, sameCtx, doneNil, okErr, pathKind(p)),
+			fmt.Sprintf("dctx=%s done-calls=%d (before fn: %d, same context: %v, done==nil on path: %v, cleanup error returned: %v) path ends in %s%s", dctxArg, nDone, before, sameCtx, doneNil, okErr, pathKind(p), deferFact),
 			"after fn returns, dctx.done of the DialContext from this iteration's init is invoked exactly once (when non-nil) before re-initialising or returning, and a cleanup error is returned",
 			"a connection is not cleaned up exactly once before the next dial or return")
 	}
